@@ -42,6 +42,9 @@ static int parse_xt(const char *s) {
     static const char *n[] = {"","byte","char","short","int","float","double","ubyte","ushort","uint","int64","uint64"};
     for (int i=1;i<=11;i++) if (!strcmp(s,n[i])) return i; return atoi(s);
 }
+/* script values: decimal integers in [-2^63, 2^64-1]; values above LLONG_MAX keep their bit pattern in a long long */
+static long long parse_val(const char *s) { if (s[0]=='-') return strtoll(s,NULL,10); return (long long)strtoull(s,NULL,10); }
+static int is_big_unsigned(const char *s) { return s[0] != '-' && strtoull(s,NULL,10) > 9223372036854775807ULL; }
 static void set_elem(void *buf, mtype_t t, size_t i, long long v) {
     switch (t) { case T_TEXT: ((char*)buf)[i]=(char)v; break; case T_SCHAR: ((signed char*)buf)[i]=(signed char)v; break;
     case T_UCHAR: ((unsigned char*)buf)[i]=(unsigned char)v; break; case T_SHORT: ((short*)buf)[i]=(short)v; break;
@@ -280,13 +283,13 @@ int main(int argc, char **argv) {
             if (mt<0) { fprintf(out," -999\n"); continue; }
             int typed = !strcmp(lay,"t"); int k = (lay[0]=='v'||lay[0]=='r') ? atoi(lay+1) : 1; if (k<1) k=1; int resized = lay[0]=='r';
             size_t rawlen; unsigned char *raw=mkbuf(nelems,k,mt,&rawlen); unsigned char *data=raw+GUARD;
-            if (w && colon>=0) { vals_n=nt-colon-1; for (size_t e=0;e<nelems && (long long)e<vals_n;e++) set_elem(data,mt,e*k,atoll(tok[colon+1+e])); }
+            if (w && colon>=0) { vals_n=nt-colon-1; for (size_t e=0;e<nelems && (long long)e<vals_n;e++) { const char *tk=tok[colon+1+e]; if (is_big_unsigned(tk) && (mt==T_FLOAT||mt==T_DOUBLE)) { if (mt==T_FLOAT) ((float*)data)[e*k]=(float)strtoull(tk,NULL,10); else ((double*)data)[e*k]=(double)strtoull(tk,NULL,10); } else set_elem(data,mt,e*k,parse_val(tk)); } }
             /* varm with imap: the user buffer is addressed through imap; the script gives imap in elements and the
                values in REQUEST order; place them accordingly (canonical request order = row-major over count) */
             size_t imapspan=0;
             if (form==F_VARM && nd>0) { int hasim=0; for(int d=0;d<nd;d++) if(im[d]) hasim=1;
                 if (hasim) { for(int d=0;d<nd;d++) imapspan += (size_t)(ct[d]>0?ct[d]-1:0)*im[d]; imapspan+=1; free(raw); size_t n2=imapspan*mt_size[mt]+2*GUARD; raw=malloc(n2); memset(raw,SENT,n2); rawlen=n2; data=raw+GUARD; k=1;
-                    if (w && colon>=0) { size_t idx[MAXDIM]={0}; for(size_t e=0;e<nelems;e++){ size_t off=0; for(int d=0;d<nd;d++) off+=idx[d]*im[d]; if ((long long)e<vals_n) set_elem(data,mt,off,atoll(tok[colon+1+e])); for(int d=nd-1;d>=0;d--){ if(++idx[d]<(size_t)ct[d])break; idx[d]=0;} } } } }
+                    if (w && colon>=0) { size_t idx[MAXDIM]={0}; for(size_t e=0;e<nelems;e++){ size_t off=0; for(int d=0;d<nd;d++) off+=idx[d]*im[d]; if ((long long)e<vals_n) set_elem(data,mt,off,parse_val(tok[colon+1+e])); for(int d=nd-1;d>=0;d--){ if(++idx[d]<(size_t)ct[d])break; idx[d]=0;} } } } }
             unsigned char *orig=malloc(rawlen); memcpy(orig,raw,rawlen);
             MPI_Datatype bt=mt_mpi(mt); MPI_Offset bc=nelems; int hasdt=0; MPI_Datatype dt=MPI_DATATYPE_NULL;
             if (k>1 && !imapspan && !resized) { MPI_Type_vector((int)nelems,1,k,bt,&dt); MPI_Type_commit(&dt); hasdt=1; bt=dt; bc=1; }
